@@ -17,7 +17,7 @@ RULE = ("every (variable, index tuple, mode, tolerance) read, every single and d
 ASSUMPTIONS = ["netCDF4 is replaced by harness/ncstub (API contract)", "files are produced by write_nc (decided by C19)",
                "list indices have no repeats in assignments"]
 
-FLOORS = {"fam=read": (400, 400), "fam=assign": (500, 500), "fam=append": (20, 20), "fam=multi": (30, 30), "mode=position": (300, 300),
+FLOORS = {"fam=read": (400, 400), "fam=assign": (500, 500), "fam=append": (20, 20), "fam=multi": (30, 30), "fam=dsread": (30, 30), "mode=position": (300, 300),
           "expect=IndexError": (50, 50), "tol": (30, 30), "assign-tol": (30, 30), "two-assignments": (5, 5), "0d": (2, 2), "str-labels": (100, 100)}
 
 PROFILES = ("always_mask", "mask_if_missing")
@@ -53,6 +53,8 @@ def _idxcls(idxs):
 
 def signature(scn, variant, kind):
     i = scn["in"]
+    if i["fam"] == "dsread":
+        return "ondisk/dsread/%s/%s" % (variant, kind)
     if i["fam"] in ("read", "assign"):
         return "ondisk/%s/%s/var=%s/mode=%s/idx=%s/tol=%s/%s" % (i["fam"], variant, i["v"], i["mode"], _idxcls(i["idxs"]), bool(i["tol"]), kind)
     if i["fam"] == "append":
@@ -157,6 +159,65 @@ def _replay_read(scn, fn, codec, profile):
                 what, kind = "expected %s, got %s: %s" % (exp["err"], type(err).__name__, str(err)[:200]), "wrong-exception:" + type(err).__name__
         if what:
             viol.append(dict(what=what, sig=signature(scn, sp + "/" + profile, kind), variant=sp + " " + profile))
+    return viol, calls
+
+
+def _replay_dsread(scn, fn, codec, profile):
+    """dataset-level on-disk reads with an index on one dimension; the file holds a(x,y) and its transpose t(y,x)"""
+    i = scn["in"]
+    exp = scn["out"]
+    arr = i["cfg"]
+    viol, calls = [], 0
+    a = N.gamma(arr, codec)
+    ds = A.Dataset()
+    ds["a"] = a
+    ds["t"] = a.T
+    ds.write_nc(fn, mode="w")
+    d = i["nd"] - 1
+    dim = arr["dims"][d]
+    from ..indexing import conc_index
+    ix = conc_index(i["idxs"][0], arr["kinds"][d], codec, i["mode"], 0)
+    for sp in ("read_nc", "open_read", "accessor"):
+        calls += 1
+        err = res = None
+        h = None
+        try:
+            if sp == "read_nc":
+                res = A.da.read_nc(fn, indices={dim: ix}, indexing=i["mode"])
+            else:
+                h = A.da.open_nc(fn)
+                if sp == "open_read":
+                    res = h.read(indices={dim: ix}, indexing=i["mode"])
+                else:
+                    res = h.sel(**{dim: ix}) if i["mode"] == "label" else h.isel(**{dim: ix})
+        except Exception as e:  # noqa
+            err = e
+        finally:
+            if h is not None:
+                h.close()
+        what = kind = None
+        if exp["ok"]:
+            if err is not None:
+                what, kind = "expected a result, got %s: %s" % (type(err).__name__, str(err)[:200]), "raised:" + type(err).__name__
+            else:
+                try:
+                    pa = N.project(res["a"], codec)
+                    what = N.compare(exp["val"], pa, check_attrs=False) or None
+                    kind = "differs-from-spec"
+                    if what is None:
+                        # the transposed variable must hold the same cells at the same label coordinates
+                        pt = N.project(res["t"].T if isinstance(res["t"], A.DimArray) and res["t"].ndim == 2 else res["t"], codec)
+                        if (pt["labs"], pt["cells"]) != (pa["labs"], pa["cells"]):
+                            what, kind = "variable t(y,x) read through the dataset differs from a(x,y): %s vs %s" % (pt, pa), "transposed-variable"
+                except A.Unprojectable as ex:
+                    what, kind = "result not projectable: %s" % ex, "unprojectable"
+        else:
+            if err is None:
+                what, kind = "expected %s, got a result" % exp["err"], "no-error"
+            elif not isinstance(err, IndexError):
+                what, kind = "expected %s, got %s: %s" % (exp["err"], type(err).__name__, str(err)[:200]), "wrong-exception:" + type(err).__name__
+        if what:
+            viol.append(dict(what=what, sig="ondisk/dsread/%s/%s/dim=%s/mode=%s/idx=%s/%s" % (sp, profile, dim, i["mode"], _idxcls(i["idxs"]), kind), variant=sp + " " + profile))
     return viol, calls
 
 
@@ -336,6 +397,8 @@ def replay(scn):
                 v, c = _replay_read(scn, fn, codec, profile)
             elif fam == "assign":
                 v, c = _replay_assign(scn, fn, codec, profile)
+            elif fam == "dsread":
+                v, c = _replay_dsread(scn, fn, codec, profile)
             elif fam == "append":
                 v, c = _replay_append(scn, fn, codec, profile)
             else:
